@@ -123,4 +123,76 @@ theorem publish_only_counter :
 theorem locked_init_leak_counter :
     NoLeak (runSched .lockedInitLeak init [.R, .K, .R, .K, .K]) = false := by decide
 
+/-! ### a multiplexed source never runs two handler calls concurrently (mutex model + regenerated fact) -/
+
+/-- handler wrappers of any number of inner sources and incarnations: `enter t` = take the mutex (when the wrapper
+    takes it) and start the handler call; `leave t` = return from the handler and release. -/
+inductive MuxAct where
+  | enter (t : Nat) | leave (t : Nat)
+deriving DecidableEq, Repr
+
+structure MuxSt where
+  holder : Option Nat := none
+  inCall : List Nat := []
+  maxOverlap : Nat := 0
+deriving DecidableEq, Repr
+
+def muxStep (serialized : Bool) (s : MuxSt) : MuxAct → MuxSt
+  | .enter t =>
+    if serialized then
+      match s.holder with
+      | some _ => s                                   -- blocked on handlerLock
+      | none => { holder := some t, inCall := t :: s.inCall, maxOverlap := max s.maxOverlap (s.inCall.length + 1) }
+    else { s with inCall := t :: s.inCall, maxOverlap := max s.maxOverlap (s.inCall.length + 1) }
+  | .leave t =>
+    if s.inCall.contains t then
+      { s with inCall := s.inCall.erase t, holder := if s.holder = some t then none else s.holder }
+    else s
+
+def muxRun (serialized : Bool) (sched : List MuxAct) : MuxSt := sched.foldl (muxStep serialized) {}
+
+def MuxInv (s : MuxSt) : Prop := s.maxOverlap ≤ 1 ∧ ((s.holder = none ∧ s.inCall = []) ∨ (∃ t, s.holder = some t ∧ s.inCall = [t]))
+
+theorem mux_step_inv (s : MuxSt) (a : MuxAct) (h : MuxInv s) : MuxInv (muxStep true s a) := by
+  obtain ⟨hm, hc⟩ := h
+  cases a with
+  | enter t =>
+    rcases hc with ⟨hh, hi⟩ | ⟨u, hh, hi⟩
+    · simp only [muxStep, if_true, hh, hi]
+      exact ⟨by simp; omega, Or.inr ⟨t, rfl, rfl⟩⟩
+    · simp only [muxStep, if_true, hh]
+      exact ⟨hm, Or.inr ⟨u, hh, hi⟩⟩
+  | leave t =>
+    rcases hc with ⟨hh, hi⟩ | ⟨u, hh, hi⟩
+    · simp only [muxStep, hi]
+      exact ⟨hm, Or.inl ⟨hh, hi⟩⟩
+    · by_cases e : u = t
+      · subst e
+        simp [muxStep, hi, hh, MuxInv, hm]
+      · have : ([u] : List Nat).contains t = false := by simp; exact fun h => e h.symm
+        simp only [muxStep, hi, this]
+        exact ⟨hm, Or.inr ⟨u, hh, hi⟩⟩
+
+theorem mux_run_inv (sched : List MuxAct) : ∀ s, MuxInv s → MuxInv (sched.foldl (muxStep true) s) := by
+  induction sched with
+  | nil => intro s h; exact h
+  | cons a as ih => intro s h; exact ih _ (mux_step_inv s a h)
+
+/-- **with the mutex taken unconditionally, no schedule of any number of wrappers (inner sources, reconnected
+    incarnations) ever has two handler calls in flight** -/
+theorem serialized_never_overlaps (sched : List MuxAct) : (muxRun true sched).maxOverlap ≤ 1 :=
+  (mux_run_inv sched {} ⟨by decide, Or.inl ⟨rfl, rfl⟩⟩).1
+
+/-- counter-schedule: without the mutex (e.g. skipped for a single factory) an old incarnation's call still in flight
+    overlaps with the first call of its replacement -/
+theorem unserialized_overlaps : (muxRun false [.enter 0, .enter 1]).maxOverlap = 2 := by decide
+
+/-- the current source: every handler wrapper in `connectSources` takes `handlerLock` unconditionally (regenerated fact) -/
+theorem multiplexed_handler_is_serialized : BstreamVerif.Facts.muxHandlerSerialized = true := by decide
+
+theorem multiplexed_never_overlaps (sched : List MuxAct) :
+    (muxRun BstreamVerif.Facts.muxHandlerSerialized sched).maxOverlap ≤ 1 := by
+  rw [multiplexed_handler_is_serialized]; exact serialized_never_overlaps sched
+
+
 end BstreamVerif.Props.C12
